@@ -229,6 +229,9 @@ type caseCfg struct {
 	MinFork      int      `json:"min_fork_point"`
 	WaitOneShot  bool     `json:"stabilise_only_after_armed_one_shot_fired"`
 	Script       []action `json:"script"`
+	// ViaFeeder: the synchroniser talks to the production feeder-gateway DataSource, which
+	// talks to the scripted source (otherwise the scripted source is the DataSource itself)
+	ViaFeeder bool `json:"via_feeder_gateway_data_source"`
 }
 
 var versionFamilies = [][]string{
@@ -236,7 +239,7 @@ var versionFamilies = [][]string{
 }
 
 func genCase(rng *rand.Rand, idx int, quick bool) caseCfg {
-	c := caseCfg{Case: idx, NodeNewState: rng.IntN(2) == 0, BuilderNew: rng.IntN(2) == 0}
+	c := caseCfg{Case: idx, NodeNewState: rng.IntN(2) == 0, BuilderNew: rng.IntN(2) == 0, ViaFeeder: idx%3 == 1}
 	c.Versions = versionFamilies[rng.IntN(len(versionFamilies))]
 	// Two directed templates on an otherwise fault-free source, so that the two
 	// schedule/shape-dependent paths they aim at are visited in every run of the check
@@ -383,6 +386,7 @@ func runCase(t *testing.T, r *lib.Run, idx int) {
 	cfg := genCase(rng, idx, r.Quick())
 	g := chain.NewGen(lib.Rng("C06/gen", uint64(idx)), chain.Opts{
 		Versions: cfg.Versions, NoNoopZero: lib.Avoid("noop-zero-write"), MaxTxs: 3, EmptyProb: 0.2,
+		DeclaredOnly: cfg.ViaFeeder,
 	})
 
 	// source chain
@@ -433,7 +437,12 @@ func runCase(t *testing.T, r *lib.Run, idx int) {
 	h.armed = true
 	h.db.mu.Unlock()
 
-	s := jsync.New(h.node.BC, src, log.NewNopZapLogger(), 0, false, h.db)
+	var ds jsync.DataSource = src
+	if cfg.ViaFeeder {
+		ds = jsync.NewFeederGatewayDataSource(h.node.BC, feederView{src})
+		r.Count("runs_via_feeder_gateway_data_source", 1)
+	}
+	s := jsync.New(h.node.BC, ds, log.NewNopZapLogger(), 0, false, h.db)
 	h.heads = s.SubscribeNewHeads()
 	h.reorgs = s.SubscribeReorg()
 	s.WithListener(h.listener())
